@@ -30,6 +30,7 @@ mod contact;
 mod resource;
 mod nodeage;
 mod regen;
+mod cachepol;
 mod tl;
 
 fn main() {
@@ -94,6 +95,7 @@ fn run(module: &str, command: &str, kv: &common::Args) -> i32 {
         ("resource", "drive") => resource::drive(kv),
         ("nodeage", "drive") => nodeage::drive(kv),
         ("regen", "drive") => regen::drive(kv),
+        ("cachepol", "drive") => cachepol::drive(kv),
         (m, c) => {
             eprintln!("unknown module/command {m} {c}");
             2
